@@ -38,5 +38,5 @@ static void prop(Tape &t, Ctx &c) {
     if (rc >= 0 || deep) c.nontrivial(fmt("pkcs8:%d:%d:%llx", rc >= 0, (int) (sel & 7), (unsigned long long) shape));
     if (rc >= 0) c.sample(fmt("psPkcs8ParsePrivBin len=%zu pass=%s rc=%d type=%d", in.n, pass ? pass : "(null)", rc, type));
 }
-VF_TARGET("C09.pkcs8", prop, 2048, 30)
+VF_TARGET("C09.pkcs8", prop, 2048, 45)
 namespace vf { void vf_global_init(int, char **) { psCryptoOpen(PSCRYPTO_CONFIG); } }
